@@ -9,11 +9,20 @@ def castOf : String → Option (Int → Int)
   | "dec" => some castDec
   | _ => none
 
+/-- a cast given as a finite table `[[value, promoted value], …]` (what numpy's promotion does to the values of this column,
+    computed by the harness with numpy itself, order-isomorphically coded) -/
+def tableCast (t : List (Int × Int)) (x : Int) : Int := (t.lookup x).getD x
+
 def keyOf (j : Json) : Except String KeyCol := do
   let c ← Driver.get? String j "cast"
-  let some f := castOf c | throw s!"bad cast {c}"
   let d ← Driver.get? (List Int) j "data"
-  pure ⟨f, d⟩
+  if c == "table" then
+    let rows ← Driver.get? (List (List Int)) j "table"
+    let t := rows.filterMap (fun r => match r with | [a, b] => some (a, b) | _ => none)
+    pure ⟨tableCast t, d⟩
+  else
+    let some f := castOf c | throw s!"bad cast {c}"
+    pure ⟨f, d⟩
 
 def targetOf (j : Json) : Except String Target := do
   let k ← Driver.get? String j "kind"
@@ -46,6 +55,23 @@ def variantOf (j : Json) : Spans.Variant :=
   | .ok "asFound" => .asFound
   | _ => .repaired
 
+/-- the aggregate call on what a `groupby` returned -/
+def finish (v : Spans.Variant) (a : String) (ks : List KeyCol) (ts : List Target) (g : Except Err Grouping) :
+    Except String (Except Err Out) :=
+  match g with
+  | .error e => pure (.error e)
+  | .ok g =>
+    match a with
+    | "count" => pure (countOf ks g)
+    | "distinct" => pure (distinctOf ks g)
+    | _ =>
+      match aggOf a with
+      | some agg => pure (GroupBy.aggOf v agg ks g ts)
+      | none => throw s!"bad agg {a}"
+
+/-- `groupby`: the answer of the model for the requested variant (default: every fix applied, `groupbyCols`) under
+    `ok`/`err`; under `stacked` the answer of the same tree with D20 as found (`groupbyStacked`: key columns stacked into
+    one array, per-column cast) — the harness accepts it only while finding D20 is listed open -/
 def handle : Driver.Handler := fun op j =>
   match op with
   | "groupby" => some do
@@ -54,12 +80,9 @@ def handle : Driver.Handler := fun op j =>
     let hint ← Driver.get? Bool j "hint"
     let ks ← (← Driver.get? (List Json) j "keys").mapM keyOf
     let ts ← (← Driver.get? (List Json) j "targets").mapM targetOf
-    match a with
-    | "count" => pure <| Driver.outE outJson (groupbyCount v ks hint)
-    | "distinct" => pure <| Driver.outE outJson (groupbyDistinct v ks hint)
-    | _ =>
-      let some agg := aggOf a | throw s!"bad agg {a}"
-      pure <| Driver.outE outJson (groupbyAgg v agg ks hint ts)
+    let r ← finish v a ks ts (groupby v ks hint)
+    let r' ← finish v a ks ts (groupbyStacked v ks hint)
+    pure <| (Driver.outE outJson r).setObjVal! "stacked" (Driver.outE outJson r')
   | "aggregate" => some do
     let v := variantOf j
     let a ← Driver.get? String j "fn"
